@@ -631,7 +631,7 @@ class RemoteStreamFlowPath(
             command = ["chmod"]
             if not follow_symlinks:
                 command.append("-h")
-            command.extend([f"{mode:o}", self.__str__()])
+            command.extend([f"{mode:o}", "--", shlex.quote(self.__str__())])
             result, status = await self.connector.run(
                 location=self.location, command=command, capture_output=True
             )
@@ -708,7 +708,7 @@ class RemoteStreamFlowPath(
             command = ["mkdir", "-m", f"{mode:o}"]
             if parents or exist_ok:
                 command.append("-p")
-            command.append(self.__str__())
+            command.extend(["--", shlex.quote(self.__str__())])
             result, status = await self.connector.run(
                 location=self.location, command=command, capture_output=True
             )
@@ -721,7 +721,7 @@ class RemoteStreamFlowPath(
             return await inner_path.read_text(n=n, encoding=encoding, errors=errors)
         else:
             command = ["head", "-c", str(n)] if n >= 0 else ["cat"]
-            command.append(self.__str__())
+            command.extend(["--", shlex.quote(self.__str__())])
             result, status = await self.connector.run(
                 location=self.location, command=command, capture_output=True
             )
@@ -765,7 +765,7 @@ class RemoteStreamFlowPath(
         if (inner_path := await self._get_inner_path()) != self:
             await inner_path.rmtree()
         else:
-            command = ["rm", "-rf", self.__str__()]
+            command = ["rm", "-rf", "--", shlex.quote(self.__str__())]
             result, status = await self.connector.run(
                 location=self.location, command=command, capture_output=True
             )
@@ -779,7 +779,7 @@ class RemoteStreamFlowPath(
                 "".join(
                     [
                         "find -L ",
-                        f'"{self.__str__()}"',
+                        shlex.quote(self.__str__()),
                         " -type f -exec ls -ln {} \\+ | ",
                         "awk 'BEGIN {sum=0} {sum+=$5} END {print sum}'; ",
                     ]
@@ -798,7 +798,13 @@ class RemoteStreamFlowPath(
         if (inner_path := await self._get_inner_path()) != self:
             await inner_path.symlink_to(target, target_is_directory=target_is_directory)
         else:
-            command = ["ln", "-snf", str(target), self.__str__()]
+            command = [
+                "ln",
+                "-snf",
+                "--",
+                shlex.quote(str(target)),
+                shlex.quote(self.__str__()),
+            ]
             result, status = await self.connector.run(
                 location=self.location, command=command, capture_output=True
             )
@@ -808,7 +814,13 @@ class RemoteStreamFlowPath(
         if (inner_path := await self._get_inner_path()) != self:
             await inner_path.hardlink_to(target)
         else:
-            command = ["ln", "-nf", str(target), self.__str__()]
+            command = [
+                "ln",
+                "-nf",
+                "--",
+                shlex.quote(str(target)),
+                shlex.quote(self.__str__()),
+            ]
             result, status = await self.connector.run(
                 location=self.location, command=command, capture_output=True
             )
@@ -902,7 +914,8 @@ class RemoteStreamFlowPath(
             if not isinstance(data, str):
                 raise TypeError("data must be str, not %s" % data.__class__.__name__)
             async with await self.connector.get_stream_writer(
-                command=["tee", str(self), ">", "/dev/null"], location=self.location
+                command=["tee", "--", shlex.quote(str(self)), ">", "/dev/null"],
+                location=self.location,
             ) as writer:
                 reader = io.BytesIO(data.encode("utf-8"))
                 while content := reader.read(self.connector.transferBufferSize):
